@@ -406,8 +406,10 @@ PROPS = {
                    quick=4, thorough=80),
               # the worker is slow exactly while it appends to the manifest (its mutex released):
               # rotations and writes fall into the installation of flushes and compactions
-              dict(driver="crash", args=["--nops", "50", "--threads", "3", "--profile", "fill",
-                                         "--compact-bias", "1", "--jitter", "900", "--jitter-point",
+              # (no manual compactions: they block the only client; long fill workloads give
+              # automatic compactions that overlap the client's writes)
+              dict(driver="crash", args=["--nops", "140", "--threads", "3", "--profile", "fill",
+                                         "--jitter", "900", "--jitter-point",
                                          "manifest_before_append", "--jitter-us", "3000"],
                    quick=4, thorough=80)]),
     "C08": dict(
